@@ -6,6 +6,7 @@ use vstd::prelude::*;
 use std::borrow::Cow;
 use std::ops::Deref;
 use std::io::{Read, Seek};
+use std::str::FromStr;
 
 verus! {
 
@@ -32,6 +33,10 @@ pub mod vba { pub struct VbaError; }
 //@@ item src/lib.rs struct Metadata
 //@@ item src/lib.rs enum HeaderRow keep_attrs
 //@@ item src/formats.rs enum CellFormat
+//@@ item src/lib.rs enum CellErrorType keep_attrs
+//@@ item src/datatype.rs enum ExcelDateTimeType keep_attrs
+//@@ item src/datatype.rs struct ExcelDateTime keep_attrs
+//@@ item src/datatype.rs enum DataRef keep_attrs
 //@@ item src/xlsx/mod.rs type Tables
 //@@ item src/xlsx/mod.rs struct Xlsx cfg_off=picture
 //@@ item src/xlsx/mod.rs struct XlsxOptions
@@ -147,7 +152,7 @@ impl<'a> BytesEnd<'a> {
 // TRUSTED: A-std -- `Cow::deref` yields the borrowed or owned content; `cow_ref` names it
 pub uninterp spec fn cow_ref<'a, 'b, B: ?Sized + ToOwned>(c: &'b Cow<'a, B>) -> &'b B;
 pub assume_specification<'a, 'b, B: ?Sized + ToOwned>[ <Cow<'a, B> as Deref>::deref ](c: &'b Cow<'a, B>) -> (r: &'b B)
-    ensures r == cow_ref(c);
+    ensures r == cow_ref(c), (*c matches Cow::Borrowed(b) ==> r == b);
 impl<'a> BytesText<'a> {
     pub uninterp spec fn ev(&self) -> Ev;
     // TRUSTED: A-xml -- `unescape` returns the text with the predefined entities and character references resolved, or Err
@@ -265,7 +270,21 @@ pub proof fn axiom_bytelits()
     ensures
         b"r"@ == n_r(), b"t"@ == n_t(), b"rPh"@ == n_rph(), b"si"@ == n_si(), b"sst"@ == n_sst(),
         b"mergeCell"@ == n_mergecell(), b"mergeCells"@ == n_mergecells(), b"ref"@ == n_ref(),
+        b"s"@ == n_s(), b"b"@ == n_b(), b"e"@ == n_e(), b"d"@ == n_d(), b"str"@ == n_str(), b"n"@ == n_n(), b"is"@ == n_is(),
+        b"v"@ == n_v(), b"f"@ == n_f(), b"c"@ == n_c(), b"row"@ == n_row(), b"sheetData"@ == n_sheetdata(),
 {}
+pub open spec fn n_s() -> Seq<u8> { seq![0x73u8] }
+pub open spec fn n_b() -> Seq<u8> { seq![0x62u8] }
+pub open spec fn n_e() -> Seq<u8> { seq![0x65u8] }
+pub open spec fn n_d() -> Seq<u8> { seq![0x64u8] }
+pub open spec fn n_str() -> Seq<u8> { seq![0x73u8, 0x74u8, 0x72u8] }
+pub open spec fn n_n() -> Seq<u8> { seq![0x6eu8] }
+pub open spec fn n_is() -> Seq<u8> { seq![0x69u8, 0x73u8] }
+pub open spec fn n_v() -> Seq<u8> { seq![0x76u8] }
+pub open spec fn n_f() -> Seq<u8> { seq![0x66u8] }
+pub open spec fn n_c() -> Seq<u8> { seq![0x63u8] }
+pub open spec fn n_row() -> Seq<u8> { seq![0x72u8, 0x6fu8, 0x77u8] }
+pub open spec fn n_sheetdata() -> Seq<u8> { seq![0x73u8, 0x68u8, 0x65u8, 0x65u8, 0x74u8, 0x44u8, 0x61u8, 0x74u8, 0x61u8] }
 pub open spec fn n_mergecell() -> Seq<u8> { seq![0x6du8, 0x65u8, 0x72u8, 0x67u8, 0x65u8, 0x43u8, 0x65u8, 0x6cu8, 0x6cu8] }
 pub open spec fn n_mergecells() -> Seq<u8> { seq![0x6du8, 0x65u8, 0x72u8, 0x67u8, 0x65u8, 0x43u8, 0x65u8, 0x6cu8, 0x6cu8, 0x73u8] }
 pub open spec fn n_ref() -> Seq<u8> { seq![0x72u8, 0x65u8, 0x66u8] }
@@ -274,6 +293,15 @@ pub open spec fn n_t() -> Seq<u8> { seq![0x74u8] }
 pub open spec fn n_rph() -> Seq<u8> { seq![0x72u8, 0x50u8, 0x68u8] }
 pub open spec fn n_si() -> Seq<u8> { seq![0x73u8, 0x69u8] }
 pub open spec fn n_sst() -> Seq<u8> { seq![0x73u8, 0x73u8, 0x74u8] }
+proof fn lemma_type_names_distinct()
+    ensures n_s() != n_b(), n_s() != n_e(), n_s() != n_d(), n_s() != n_n(), n_b() != n_e(), n_b() != n_d(), n_b() != n_n(),
+        n_e() != n_d(), n_e() != n_n(), n_d() != n_n(), n_str().len() == 3, n_is().len() == 2, n_s().len() == 1, n_b().len() == 1,
+        n_e().len() == 1, n_d().len() == 1, n_n().len() == 1,
+{
+    assert(n_s()[0] != n_b()[0]); assert(n_s()[0] != n_e()[0]); assert(n_s()[0] != n_d()[0]); assert(n_s()[0] != n_n()[0]);
+    assert(n_b()[0] != n_e()[0]); assert(n_b()[0] != n_d()[0]); assert(n_b()[0] != n_n()[0]);
+    assert(n_e()[0] != n_d()[0]); assert(n_e()[0] != n_n()[0]); assert(n_d()[0] != n_n()[0]);
+}
 proof fn lemma_names_distinct()
     ensures n_r() != n_t(), n_r() != n_rph(), n_t() != n_rph(), n_si() != n_sst(),
 {
@@ -803,6 +831,7 @@ pub open spec fn a1_cell(s: Seq<u8>, nl: int) -> bool { a1_small(s, nl) && nl >=
 /// s is a row reference (optional letters, digits, row >= 1)
 pub open spec fn a1_rowref(s: Seq<u8>, nl: int) -> bool { a1_small(s, nl) && dec10(s.subrange(nl, s.len() as int)) >= 1 }
 /// the 0-based (row, column) a cell reference denotes
+#[verifier::opaque]
 pub open spec fn cell_of(s: Seq<u8>) -> Option<(u32, u32)> {
     if exists|nl: int| a1_cell(s, nl) {
         let nl = choose|nl: int| a1_cell(s, nl);
@@ -810,6 +839,7 @@ pub open spec fn cell_of(s: Seq<u8>) -> Option<(u32, u32)> {
     } else { None }
 }
 /// the 0-based row a row reference (the `r` attribute of `row`) denotes
+#[verifier::opaque]
 pub open spec fn row_of(s: Seq<u8>) -> Option<u32> {
     if exists|nl: int| a1_rowref(s, nl) { let nl = choose|nl: int| a1_rowref(s, nl); Some(a1_value(s, nl).0) } else { None }
 }
@@ -871,10 +901,58 @@ proof fn lemma_cell_of(s: Seq<u8>, nl: int)
     requires a1_cell(s, nl),
     ensures cell_of(s) == Some((a1_value(s, nl).0, (b26(s.subrange(0, nl)) - 1) as u32)),
 {
+    reveal(cell_of);
     // the split into letters ++ digits is unique
     let m = choose|m: int| a1_cell(s, m);
     if m < nl { assert(is_digit(s.subrange(m, s.len() as int)[0])); assert(is_letter(s.subrange(0, nl)[m])); }
     if m > nl { assert(is_letter(s.subrange(0, m)[nl])); assert(is_digit(s.subrange(nl, s.len() as int)[0])); }
+}
+
+proof fn lemma_cell_2(l: u8, d: u8)
+    requires is_letter(l), 0x31 <= d <= 0x39,
+    ensures cell_of(seq![l, d]) == Some(((d - 0x31) as u32, (letter_val(l) - 1) as u32)),
+{
+    let s = seq![l, d];
+    assert(s.subrange(0, 1) =~= seq![l]);
+    assert(s.subrange(1, 2) =~= seq![d]);
+    assert(seq![d].drop_last() =~= Seq::<u8>::empty());
+    assert(seq![l].drop_last() =~= Seq::<u8>::empty());
+    assert(dec10(seq![d]) == (d - 0x30) as nat) by { reveal_with_fuel(dec10, 2); }
+    assert(b26(seq![l]) == letter_val(l)) by { reveal_with_fuel(b26, 2); }
+    assert(a1_cell(s, 1));
+    lemma_cell_of(s, 1);
+}
+/// witness / sanity: "A1:B2" is the area (0,0)-(1,1); "C3" is the one-cell area (2,2)
+proof fn witness_dim_of()
+    ensures
+        dim_of(seq![0x41u8, 0x31u8, 0x3au8, 0x42u8, 0x32u8]) == Some(Dimensions { start: (0u32, 0u32), end: (1u32, 1u32) }),
+        dim_of(seq![0x43u8, 0x33u8]) == Some(Dimensions { start: (2u32, 2u32), end: (2u32, 2u32) }),
+{
+    let s = seq![0x41u8, 0x31u8, 0x3au8, 0x42u8, 0x32u8];
+    reveal_with_fuel(colon_at, 4);
+    assert(colon_at(s, 0) == 2);
+    assert(s.subrange(0, 2) =~= seq![0x41u8, 0x31u8]);
+    assert(s.subrange(3, 5) =~= seq![0x42u8, 0x32u8]);
+    lemma_cell_2(0x41u8, 0x31u8);
+    lemma_cell_2(0x42u8, 0x32u8);
+    let t = seq![0x43u8, 0x33u8];
+    assert(colon_at(t, 0) == 2);
+    lemma_cell_2(0x43u8, 0x33u8);
+}
+/// witness: <mergeCell ref="C3"/></mergeCells>  -->  one region
+proof fn witness_mc_scan()
+    ensures ({
+        let a = Attr { key: n_ref(), raw: seq![0x43u8, 0x33u8], val: Seq::empty(), val_ok: true, err: false };
+        let ev = seq![Ev { attrs: seq![a], ..ev_start(n_mergecell()) }, ev_end(n_mergecell()), ev_end(n_mergecells())];
+        let m = mc_scan(ev, 0, Seq::empty());
+        m.ok && m.end == 2 && m.regions == seq![Dimensions { start: (2u32, 2u32), end: (2u32, 2u32) }] }),
+{
+    witness_dim_of();
+    lemma_local_no_colon(n_mergecell(), 0); lemma_local_no_colon(n_mergecells(), 0);
+    assert(n_mergecell().len() != n_mergecells().len());
+    reveal_with_fuel(mc_scan, 4);
+    reveal_with_fuel(attr_scan, 2);
+    assert(Seq::<Dimensions>::empty().push(Dimensions { start: (2u32, 2u32), end: (2u32, 2u32) }) =~= seq![Dimensions { start: (2u32, 2u32), end: (2u32, 2u32) }]);
 }
 
 //@@ fn src/xlsx/mod.rs get_attribute props=C01,C17 ret=r
@@ -890,6 +968,8 @@ proof fn lemma_cell_of(s: Seq<u8>, nl: int)
 //@@ loop 0
         invariant
             attr_scan(__it0.rem(), n.0@) == attr_scan(atts.rem(), n.0@),
+        ensures
+            __it0.rem().len() == 0,
         decreases __it0.rem().len(),
 //@@ end
 
@@ -969,15 +1049,315 @@ proof fn lemma_mc_end(ev: Seq<Ev>, i: int, acc: Seq<Dimensions>)
         let ghost mc0 = merge_cells@;
         proof { if tot.ok { lemma_mc_end(ev, pos, mc0); } }
 //@@ loop 1
-                    invariant
+                    invariant_except_break
                         attr_scan(__it1.rem(), n_ref()) == attr_scan(ev[pos].attrs, n_ref()),
-                        merge_cells@ == mc0, b"ref"@ == n_ref(),
+                        merge_cells@ == mc0,
+                    invariant
+                        b"ref"@ == n_ref(),
                         xml.events() == ev, xml.pos() == pos + 1, pos < ev.len(),
                         ev == old(xml).events(), p0 == old(xml).pos(), pos >= p0,
+                        tot == mc_scan(ev, p0, Seq::empty()),
+                        tot.ok ==> mc_scan(ev, pos, mc0) == tot,
+                        ev[pos].kind is Start && ev[pos].local() =~= n_mergecell(),
                     ensures
-                        xml.events() == ev, xml.pos() == pos + 1,
-                        tot.ok && mc_scan(ev, pos, mc0) == tot ==> mc_scan(ev, pos + 1, merge_cells@) == tot,
+                        tot.ok ==> mc_scan(ev, pos + 1, merge_cells@) == tot,
                     decreases __it1.rem().len(),
+//@@ before /for attribute in event/
+                proof {
+                    assert(pos < ev.len() && ev[pos].kind is Start && event.ev() == ev[pos] && event.ev().local() =~= n_mergecell());
+                }
+//@@ end
+
+// =====================================================================================================================
+// C01 / C10 -- cell values.  ECMA-376 18.3.1.4 c (CT_Cell: f?, v?, is?; attributes r, s, t) and 18.18.11 ST_CellType:
+//   b boolean ("0"/"1"), d ISO 8601 date, e error literal, inlineStr (rich text in `is`), n number (the default), s index into the
+//   shared string table, str formula string.  A number is a date/time exactly when the number format of style `s` is one (C10).
+// =====================================================================================================================
+// TRUSTED: A-std -- documented behaviour of the std functions below (vstd has no specification for them)
+pub assume_specification<T, E>[ Result::<T, E>::unwrap_or ](r: Result<T, E>, d: T) -> (o: T)
+    ensures o == (match r { Ok(x) => x, Err(_) => d });
+pub assume_specification<T, E, F>[ Result::<T, E>::or ](a: Result<T, E>, b: Result<T, F>) -> (r: Result<T, F>)
+    ensures r == (match a { Ok(x) => Ok::<T, F>(x), Err(_) => b });
+pub assume_specification<T, U, F: FnOnce(T) -> U>[ Option::<T>::map_or ](o: Option<T>, d: U, f: F) -> (r: U)
+    requires o matches Some(x) ==> call_requires(f, (x,)),
+    ensures o is None ==> r == d, o matches Some(x) ==> call_ensures(f, (x,), r);
+/// UTF-8 encoding of a string (uninterpreted)
+pub uninterp spec fn utf8(s: Seq<char>) -> Seq<u8>;
+pub assume_specification[ String::as_bytes ](s: &String) -> (r: &[u8])
+    ensures r@ == utf8(s@);
+pub assume_specification<'a>[ <String as PartialEq<&'a str>>::ne ](a: &String, b: &&str) -> (r: bool)
+    ensures r == !(a@ =~= b@);
+#[verifier::external_type_specification] #[verifier::external_body] pub struct ExUtf8Error(std::str::Utf8Error);
+pub assume_specification[ std::str::from_utf8 ](b: &[u8]) -> (r: Result<&str, std::str::Utf8Error>);   // only feeds an error message
+#[verifier::external_trait_specification] pub trait ExFromStr: Sized { type ExternalTraitSpecificationFor: std::str::FromStr; type Err; fn from_str(s: &str) -> Result<Self, Self::Err>; }
+// TRUSTED: text -> value parsing is NOT verified: `str::parse::<f64>` (std float parsing) and `str::parse::<CellErrorType>` (FromStr for
+// CellErrorType in src/xlsx/mod.rs, a literal-by-literal `match`) are uninterpreted functions of the text
+pub uninterp spec fn parse_spec<F: FromStr>(s: Seq<char>) -> Result<F, <F as FromStr>::Err>;
+pub assume_specification<F: FromStr>[ str::parse::<F> ](s: &str) -> (r: Result<F, <F as FromStr>::Err>)
+    ensures r == parse_spec::<F>(s@);
+//@@ impl src/xlsx/mod.rs "FromStr for CellErrorType"
+    type Err = XlsxError;
+//@@ fn src/xlsx/mod.rs "FromStr for CellErrorType::from_str" external_body
+//@@ end
+//@@ endimpl
+// TRUSTED: stand-in for the atoi_simd crate: decimal digits -> integer, uninterpreted (integer parsing is not verified)
+pub mod atoi_simd {
+    use super::*;
+    pub struct AtoiSimdError;
+    pub uninterp spec fn atoi_spec<T>(s: Seq<u8>) -> Option<T>;
+    #[verifier::external_body]
+    pub fn parse<T>(s: &[u8]) -> (r: Result<T, AtoiSimdError>)
+        ensures match atoi_spec::<T>(s@) { Some(x) => r == Ok::<T, AtoiSimdError>(x), None => r is Err },
+    { unimplemented!() }
+}
+pub open spec fn atoi_usize(s: Seq<u8>) -> Option<usize> { atoi_simd::atoi_spec::<usize>(s) }
+
+// ExcelDateTime has private fields: observed through closed spec functions (same as unit formats)
+pub closed spec fn edt_parts(e: ExcelDateTime) -> (f64, ExcelDateTimeType, bool) { (e.value, e.datetime_type, e.is_1904) }
+pub closed spec fn edt_mk(value: f64, datetime_type: ExcelDateTimeType, is_1904: bool) -> ExcelDateTime { ExcelDateTime { value, datetime_type, is_1904 } }
+//@@ impl src/datatype.rs ExcelDateTime
+//@@ fn src/datatype.rs ExcelDateTime::new props=C10 ret=r
+//@@ sig
+    ensures
+        //# C10.edt_new_fields
+        r == edt_mk(value, datetime_type, is_1904),
+//@@ end
+//@@ endimpl
+/// the date flavour a format class asks for (None: stays a plain number) -- as in unit formats
+pub open spec fn flavour(format: Option<&CellFormat>) -> Option<ExcelDateTimeType> {
+    match format {
+        Some(CellFormat::DateTime) => Some(ExcelDateTimeType::DateTime),
+        Some(CellFormat::TimeDelta) => Some(ExcelDateTimeType::TimeDelta),
+        _ => None,
+    }
+}
+// same contract as in unit formats, re-verified here on the same text
+//@@ fn src/formats.rs format_excel_f64_ref props=C10 ret=r
+//@@ sig
+    ensures
+        //# C10.f64_plain_when_not_date_format
+        flavour(format) is None ==> r == DataRef::<'static>::Float(value),
+        //# C10.f64_datetime_iff_date_format
+        flavour(format) matches Some(ty) ==> r == DataRef::<'static>::DateTime(edt_mk(value, ty, is_1904)),
+//@@ end
+
+/// the number format class the style attribute `s` of a `c` start tag designates (cellXfs index); no `s`: the default style
+pub open spec fn style_fmt(c_attrs: Seq<Attr>, formats: Seq<CellFormat>) -> Option<CellFormat> {
+    match attr_scan(c_attrs, n_s()) {
+        AttrLookup::Found(style) => match atoi_usize(style) {
+            Some(id) => if id < formats.len() { Some(formats[id as int]) } else { None },
+            None => None,
+        },
+        _ => Some(CellFormat::Other),
+    }
+}
+/// the `s` attribute, if present, is a number that designates an existing cellXfs entry
+pub open spec fn style_valid(c_attrs: Seq<Attr>, formats: Seq<CellFormat>) -> bool {
+    match attr_scan(c_attrs, n_s()) {
+        AttrLookup::Found(style) => atoi_usize(style) is Some && atoi_usize(style)->Some_0 < formats.len(),
+        AttrLookup::Absent => true,
+        AttrLookup::Malformed => false,
+    }
+}
+/// value of a numeric cell: DateTime exactly when the format class is a date/time class, with the workbook's date system (C10, C16)
+pub open spec fn num_value(n: f64, fmt: Option<CellFormat>, is_1904: bool) -> DataRef<'static> {
+    match fmt {
+        Some(CellFormat::DateTime) => DataRef::DateTime(edt_mk(n, ExcelDateTimeType::DateTime, is_1904)),
+        Some(CellFormat::TimeDelta) => DataRef::DateTime(edt_mk(n, ExcelDateTimeType::TimeDelta, is_1904)),
+        _ => DataRef::Float(n),
+    }
+}
+/// the cell type attribute `t` is `name`
+pub open spec fn t_is(c_attrs: Seq<Attr>, name: Seq<u8>) -> bool { attr_scan(c_attrs, n_t()) == AttrLookup::Found(name) }
+
+/// ghost view of a cell value (strings by content)
+pub ghost enum DV { Int(i64), Float(f64), Str(Seq<char>), Shared(Seq<char>), Bool(bool), DateTime(ExcelDateTime), Iso(Seq<char>), DurIso(Seq<char>), Error(CellErrorType), Empty }
+pub open spec fn dv(d: DataRef) -> DV {
+    match d {
+        DataRef::Int(x) => DV::Int(x), DataRef::Float(x) => DV::Float(x), DataRef::String(x) => DV::Str(x@), DataRef::SharedString(x) => DV::Shared(x@),
+        DataRef::Bool(x) => DV::Bool(x), DataRef::DateTime(x) => DV::DateTime(x), DataRef::DateTimeIso(x) => DV::Iso(x@),
+        DataRef::DurationIso(x) => DV::DurIso(x@), DataRef::Error(x) => DV::Error(x), DataRef::Empty => DV::Empty,
+    }
+}
+/// ST_CellType: the value a `c` start tag (attributes t, s) and the text of its `v` child denote; None: not a well-formed combination
+/// (nothing is claimed: index / style out of range, unparsable number or error literal, boolean other than 0/1, unknown type)
+pub open spec fn typed_dv(c_attrs: Seq<Attr>, v: Seq<char>, strings: Seq<String>, formats: Seq<CellFormat>, is_1904: bool) -> Option<DV> {
+    match attr_scan(c_attrs, n_t()) {
+        AttrLookup::Malformed => None,
+        AttrLookup::Absent =>
+            if parse_spec::<f64>(v) is Ok && style_valid(c_attrs, formats) { Some(dv(num_value(parse_spec::<f64>(v)->Ok_0, style_fmt(c_attrs, formats), is_1904))) } else { None },
+        AttrLookup::Found(t) =>
+            if t =~= n_s() { match atoi_usize(utf8(v)) { Some(idx) => if idx < strings.len() { Some(DV::Shared(strings[idx as int]@)) } else { None }, None => None } }
+            else if t =~= n_b() { if v =~= "0"@ { Some(DV::Bool(false)) } else if v =~= "1"@ { Some(DV::Bool(true)) } else { None } }
+            else if t =~= n_e() { match parse_spec::<CellErrorType>(v) { Ok(e) => Some(DV::Error(e)), Err(_) => None } }
+            else if t =~= n_d() { Some(DV::Iso(v)) }
+            else if t =~= n_str() { Some(DV::Str(v)) }
+            else if t =~= n_n() {
+                if v.len() == 0 { Some(DV::Empty) }
+                else if parse_spec::<f64>(v) is Ok && style_valid(c_attrs, formats) { Some(dv(num_value(parse_spec::<f64>(v)->Ok_0, style_fmt(c_attrs, formats), is_1904))) }
+                else { None }
+            }
+            else { None },
+    }
+}
+
+//@@ fn src/xlsx/cells_reader.rs read_v props=C01 entry ret=r
+//@@ replace /Some\(b"s"\) =>/ Verus crashes on byte-string literal patterns (ill-typed AIR); equivalent guard
+Some(__t) if __t == b"s" =>
+//@@ replace /Some\(b"b"\) =>/ byte-string literal pattern -> equivalent guard
+Some(__t) if __t == b"b" =>
+//@@ replace /Some\(b"e"\) =>/ byte-string literal pattern -> equivalent guard
+Some(__t) if __t == b"e" =>
+//@@ replace /Some\(b"d"\) =>/ byte-string literal pattern -> equivalent guard
+Some(__t) if __t == b"d" =>
+//@@ replace /Some\(b"str"\) =>/ byte-string literal pattern -> equivalent guard
+Some(__t) if __t == b"str" =>
+//@@ replace /Some\(b"n"\) =>/ byte-string literal pattern -> equivalent guard
+Some(__t) if __t == b"n" =>
+//@@ replace /Some\(b"is"\) =>/ byte-string literal pattern -> equivalent guard
+Some(__t) if __t == b"is" =>
+//@@ replace /map_err\(XlsxError::ParseFloat\)/ Verus: datatype constructor as a function value unsupported; eta-expanded
+map_err(|e| XlsxError::ParseFloat(e))
+//@@ sig
+    ensures
+        //# C01,C19.value_typing_shared_string
+        t_is(c_element.ev().attrs, n_s()) && atoi_usize(utf8(v@)) is Some && atoi_usize(utf8(v@))->Some_0 < strings@.len() ==>
+            (r matches Ok(DataRef::SharedString(x)) && x@ == strings@[atoi_usize(utf8(v@))->Some_0 as int]@),
+        //# C01.value_typing_bool
+        t_is(c_element.ev().attrs, n_b()) && (v@ =~= "0"@ || v@ =~= "1"@) ==> r == Ok::<DataRef<'s>, XlsxError>(DataRef::Bool(v@ =~= "1"@)),
+        //# C01.value_typing_error
+        t_is(c_element.ev().attrs, n_e()) && parse_spec::<CellErrorType>(v@) is Ok ==>
+            r == Ok::<DataRef<'s>, XlsxError>(DataRef::Error(parse_spec::<CellErrorType>(v@)->Ok_0)),
+        //# C01.value_typing_iso_date
+        t_is(c_element.ev().attrs, n_d()) ==> r == Ok::<DataRef<'s>, XlsxError>(DataRef::DateTimeIso(v)),
+        //# C01,C19.value_typing_formula_string
+        t_is(c_element.ev().attrs, n_str()) ==> r == Ok::<DataRef<'s>, XlsxError>(DataRef::String(v)),
+        //# C01,C10.value_typing_number
+        t_is(c_element.ev().attrs, n_n()) && v@.len() > 0 && parse_spec::<f64>(v@) is Ok && style_valid(c_element.ev().attrs, formats@) ==>
+            r == Ok::<DataRef<'s>, XlsxError>(num_value(parse_spec::<f64>(v@)->Ok_0, style_fmt(c_element.ev().attrs, formats@), is_1904)),
+        //# C01,C10.value_typing_default_is_number
+        attr_scan(c_element.ev().attrs, n_t()) is Absent && parse_spec::<f64>(v@) is Ok && style_valid(c_element.ev().attrs, formats@) ==>
+            r == Ok::<DataRef<'s>, XlsxError>(num_value(parse_spec::<f64>(v@)->Ok_0, style_fmt(c_element.ev().attrs, formats@), is_1904)),
+        //# C01.value_typing_empty_number
+        t_is(c_element.ev().attrs, n_n()) && v@.len() == 0 ==> r == Ok::<DataRef<'s>, XlsxError>(DataRef::Empty),
+        //# C01,C10.value_typing
+        typed_dv(c_element.ev().attrs, v@, strings@, formats@, is_1904) is Some ==>
+            r is Ok && dv(r->Ok_0) == typed_dv(c_element.ev().attrs, v@, strings@, formats@, is_1904)->Some_0,
+//@@ body
+    proof { axiom_bytelits(); lemma_type_names_distinct(); }
+//@@ before /let idx = atoi_simd/
+            proof { assert(__t@ =~= n_s()); assert(!t_is(c_element.ev().attrs, n_d())); }
+//@@ before /Ok\(DataRef::Bool/
+            proof {
+                assert(__t@ =~= n_b()); assert(!t_is(c_element.ev().attrs, n_d()));
+                reveal_strlit("0"); reveal_strlit("1");
+                assert("0"@.len() == 1 && "1"@.len() == 1 && "0"@[0] != "1"@[0]);
+            }
+//@@ before /Ok\(DataRef::Error/
+            proof { assert(__t@ =~= n_e()); assert(!t_is(c_element.ev().attrs, n_d())); }
+//@@ before /Ok\(DataRef::DateTimeIso\(v\)\)/
+            proof {
+                assert(__t@ =~= n_d());
+                assert(t_is(c_element.ev().attrs, n_d()));
+            }
+//@@ closure 0
+    -> (res: DataRef<'static>) ensures res == num_value(n, match cell_format { Some(f) => Some(*f), None => None }, is_1904)
+//@@ closure 1
+    -> (res: DataRef<'static>) ensures res == num_value(n, match cell_format { Some(f) => Some(*f), None => None }, is_1904)
+//@@ end
+
+/// character data of a text-only element (`v`) whose start tag (qualified name `name`) precedes ev[i]: Text unescaped, CDATA literal,
+/// comments skipped, no child elements, closed by the end tag with the same qualified name
+pub ghost struct TxtRes { pub ok: bool, pub text: Seq<char>, pub end: int }
+pub open spec fn txt_scan(ev: Seq<Ev>, i: int, name: Seq<u8>, acc: Seq<char>) -> TxtRes
+    decreases ev.len() - i
+{
+    if i < 0 || i >= ev.len() { TxtRes { ok: false, text: acc, end: i } }
+    else {
+        let e = ev[i];
+        match e.kind {
+            EvKind::Text => if e.text_ok { txt_scan(ev, i + 1, name, acc + e.text) } else { TxtRes { ok: false, text: acc, end: i } },
+            EvKind::CData => txt_scan(ev, i + 1, name, acc + e.text),
+            EvKind::Other => txt_scan(ev, i + 1, name, acc),
+            EvKind::End => if e.name =~= name { TxtRes { ok: true, text: acc, end: i } } else { TxtRes { ok: false, text: acc, end: i } },
+            _ => TxtRes { ok: false, text: acc, end: i },
+        }
+    }
+}
+proof fn lemma_txt_end(ev: Seq<Ev>, i: int, name: Seq<u8>, acc: Seq<char>)
+    requires 0 <= i, txt_scan(ev, i, name, acc).ok,
+    ensures i <= txt_scan(ev, i, name, acc).end < ev.len(),
+    decreases ev.len() - i,
+{
+    if i < ev.len() {
+        let e = ev[i];
+        match e.kind {
+            EvKind::Text => { lemma_txt_end(ev, i + 1, name, acc + e.text); }
+            EvKind::CData => { lemma_txt_end(ev, i + 1, name, acc + e.text); }
+            EvKind::Other => { lemma_txt_end(ev, i + 1, name, acc); }
+            _ => {}
+        }
+    }
+}
+pub open spec fn inline_dv(t: Option<Seq<char>>) -> DV { match t { Some(x) => DV::Str(x), None => DV::Empty } }
+
+//@@ fn src/xlsx/cells_reader.rs read_value props=C01 ret=r
+//@@ replace /b"is" =>/ Verus crashes on byte-string literal patterns; equivalent guard
+__n if __n == b"is" =>
+//@@ replace /b"v" =>/ byte-string literal pattern -> equivalent guard
+__n if __n == b"v" =>
+//@@ replace /b"f" =>/ byte-string literal pattern -> equivalent guard
+__n if __n == b"f" =>
+//@@ replace /DataRef::String\)/ Verus: datatype constructor as a function value unsupported; eta-expanded
+|s: String| -> (q: DataRef<'s>) ensures q == DataRef::<'s>::String(s) { DataRef::String(s) })
+//@@ sig
+    ensures
+        //# C01.value_reader_frame
+        final(xml).events() == old(xml).events() && final(xml).pos() >= old(xml).pos(),
+        //# C01,C10.value_from_v
+        ({ let tx = txt_scan(old(xml).events(), old(xml).pos() as int, e.ev().name, Seq::empty());
+           let ty = typed_dv(c_element.ev().attrs, tx.text, strings@, formats@, is_1904);
+           e.ev().local() =~= n_v() && tx.ok && ty is Some && no_cdata(old(xml).events(), old(xml).pos() as int, tx.end) ==>
+               r is Ok && dv(r->Ok_0) == ty->Some_0 && final(xml).pos() == tx.end + 1 }),
+        //# C19.cdata_value_text
+        ({ let tx = txt_scan(old(xml).events(), old(xml).pos() as int, e.ev().name, Seq::empty());
+           let ty = typed_dv(c_element.ev().attrs, tx.text, strings@, formats@, is_1904);
+           e.ev().local() =~= n_v() && tx.ok && ty is Some ==>
+               r is Ok && dv(r->Ok_0) == ty->Some_0 && final(xml).pos() == tx.end + 1 }),
+        //# C01,C19.value_from_inline_string
+        ({ let it = rst_item(old(xml).events(), old(xml).pos() as int, e.ev().name);
+           e.ev().local() =~= n_is() && it.ok && unprefixed(e.ev().name) && no_cdata(old(xml).events(), old(xml).pos() as int, it.end) ==>
+               r is Ok && dv(r->Ok_0) == inline_dv(it.text) && final(xml).pos() == it.end + 1 }),
+        //# C01.formula_element_skipped
+        ({ let ev = old(xml).events();
+           let k = rte_stop(ev, old(xml).pos() as int, e.ev().name, 0);
+           e.ev().local() =~= n_f() && k < ev.len() && ev[k].kind is End ==> r is Ok && r->Ok_0 is Empty && final(xml).pos() == k + 1 }),
+        //# C01.unknown_cell_child_rejected
+        !(e.ev().local() =~= n_is()) && !(e.ev().local() =~= n_v()) && !(e.ev().local() =~= n_f()) ==> r is Err,
+//@@ body
+    let ghost ev = xml.events();
+    let ghost p0 = xml.pos() as int;
+    let ghost tot = txt_scan(ev, p0, e.ev().name, Seq::empty());
+    let ghost good = tot.ok && no_cdata(ev, p0, tot.end);
+    proof {
+        axiom_bytelits();
+        assert(n_is().len() != n_v().len() && n_is().len() != n_f().len() && n_v()[0] != n_f()[0]);
+        if tot.ok { lemma_txt_end(ev, p0, e.ev().name, Seq::empty()); }
+    }
+//@@ loop 0
+                invariant_except_break
+                    good ==> txt_scan(ev, xml.pos() as int, e.ev().name, v@) == tot,
+                invariant
+                    ev == old(xml).events(), p0 == old(xml).pos(), xml.events() == ev, xml.pos() >= p0,
+                    tot == txt_scan(ev, p0, e.ev().name, Seq::empty()),
+                    good == (tot.ok && no_cdata(ev, p0, tot.end)),
+                    good ==> xml.pos() <= tot.end + 1 && tot.end < ev.len(),
+                ensures
+                    good ==> v@ == tot.text && xml.pos() == tot.end + 1,
+                decreases xml.left(),
+//@@ before /match xml\.read_event_into\(&mut v_buf\)/
+                let ghost pos = xml.pos() as int;
+                proof { if good { lemma_txt_end(ev, pos, e.ev().name, v@); assert(!(ev[pos].kind is CData)); } }
 //@@ end
 } // verus!
 fn main() {}
